@@ -33,7 +33,7 @@ KEYS = [X, Y, Z, W]
 FILTERS = [[S1, 0xFFFF, 0xFF, 0xFFFFFFFF], [S1, 1, 1, 0xFFFFFFFF], [S2, 0xFFFF, 1, 5], [S1, 2, 0xFF, 0]]
 NSYM = 21
 SWEEP_LEN = {"quick": 3, "thorough": 4}
-RANDOM_RUNS = {"quick": 60000, "thorough": 3000000}
+RANDOM_RUNS = {"quick": 40000, "thorough": 3000000}
 
 
 def sweep_count(L):
